@@ -124,7 +124,7 @@ func (w *World) funcs(hs []*Script, spare int) []rux.HandlerFunc {
 
 // Apply executes the program against a real router through the public API.
 func (p *Program) Apply(w *World) *rux.Router {
-	r := rux.New(p.Opts.Rux()...)
+	r := p.Opts.NewRouter()
 	var run func(ss []*Stmt)
 	run = func(ss []*Stmt) {
 		for _, s := range ss {
@@ -428,6 +428,7 @@ type ScriptCfg struct {
 	Pollute bool // wrap c.Resp, replace c.Req, mutate Params
 	Yields  bool // scheduling points at entry, around Next() and at exit (C03)
 	Copies  bool // c.Copy() kept beyond the request
+	Hijack  bool // take over the connection through http.Hijacker
 	Nexts   []int
 }
 
@@ -443,6 +444,9 @@ func genMisc(t *rapid.T, cfg ScriptCfg) (op Op, ok bool) {
 	}
 	if cfg.Pollute {
 		kinds = append(kinds, OpWrapResp, OpReqCtx, OpSetParam)
+	}
+	if cfg.Hijack {
+		kinds = append(kinds, OpHijack)
 	}
 	if cfg.Copies {
 		kinds = append(kinds, OpCopy)
@@ -543,6 +547,7 @@ type ProgCfg struct {
 	EmptyPaths  bool // "" and "/" route paths (non-strict only)
 	AnyRoutes   bool
 	Controllers bool // Controller and Resource registrations
+	RootGroups  bool // Group("/", ...) at top level
 	Script      ScriptCfg
 }
 
@@ -645,6 +650,11 @@ func (g *progGen) body(prefix string, nmw int, depth int) []*Stmt {
 			if rapid.Bool().Draw(t, "gNoLeadingSlash") {
 				written = seg
 			}
+			rootGroup := g.cfg.RootGroups && depth == 0 && rapid.IntRange(0, 7).Draw(t, "rootGroup") == 0
+			if rootGroup {
+				// Group("/", ...) at top level: only the middleware is added (N("/" ++ path) = N(path))
+				written, seg = "/", ""
+			}
 			hs := g.scripts("g", rapid.IntRange(0, g.cfg.MaxMw).Draw(t, "ngroupMw"))
 			if nmw+len(hs) > 40 {
 				hs = nil
@@ -683,6 +693,12 @@ func (g *progGen) body(prefix string, nmw int, depth int) []*Stmt {
 					{Kind: "route", Methods: []string{"GET"}, Path: "{id}/", Main: GenScript(t, g.w, "show", g.cfg.Script)},
 					{Kind: "route", Methods: []string{"DELETE"}, Path: "{id}/", Main: GenScript(t, g.w, "delete", g.cfg.Script)},
 				}
+				out = append(out, s)
+				continue
+			}
+			if rootGroup {
+				s.Kind, s.Reuse = "group", nil
+				s.Body = g.body("/", nmw+len(s.Hs), depth+1)
 				out = append(out, s)
 				continue
 			}
